@@ -97,7 +97,7 @@ class CreateTopic(Obligation):
         exists = z3.Or([z3.And(u, eq_val(name_of(t), name)) for u, t in ents])
         out = []
         if res['which'] == 1:
-            out.append(Claim('delete leaves next_id alone (ids are never reused)', nid2 == nid))
+            out.append(Claim('delete never lowers next_id (ids are never reused)', nid2 >= nid))
             out.append(Claim('delete removes exactly that name', z3.And([z3.Not(tm.found(name))] +
                              [z3.Implies(z3.And(u, z3.Not(eq_val(name_of(t), name))), tm.found(name_of(t))) for u, t in ents])))
             out.append(Cover('delete existing', exists))
@@ -108,8 +108,8 @@ class CreateTopic(Obligation):
             tv = read_loc(topic.deref_loc(ip))
             iid = fld(ctx, tv, 'Topic', 'internal_id', 'topics/topic').t
             out.append(Claim('created only when the name was absent', z3.Not(exists)))
-            out.append(Claim('new internal id == next_id + 1, larger than every id in use', z3.And(iid == nid + 1, z3.And([z3.Implies(u, U['topic_iid'](t) < iid) for u, t in ents]))))
-            out.append(Claim('next_id advanced', nid2 == nid + 1))
+            out.append(Claim('new internal id is above every id issued so far (> next_id), hence above every id in use', z3.And(iid > nid, z3.And([z3.Implies(u, U['topic_iid'](t) < iid) for u, t in ents]))))
+            out.append(Claim('next_id covers the new id (ids are never reused)', z3.And(nid2 >= iid, nid2 < (1 << 32))))
             out.append(Claim('registered under its name', tm.found(name)))
             out.append(Claim('topic carries the requested name', eq_val(fld(ctx, tv, 'Topic', 'name', 'topics/topic'), name)))
             out.append(Claim('others untouched', z3.And([z3.Implies(u, z3.And(tm.found(name_of(t)), tm.lookup(name_of(t)).tok == t)) for u, t in ents])))
@@ -117,7 +117,7 @@ class CreateTopic(Obligation):
         else:
             ev = ip.src.enum_variants('CreateTopicError')
             out.append(Claim('error is AlreadyExists, only when the name is taken', z3.And(exists, z3.BoolVal(ev[r.payload[1][0].discr][0] == 'AlreadyExists'))))
-            out.append(Claim('nothing changed', z3.And(nid2 == nid, tm.count() == z3.Sum([z3.If(u, 1, 0) for u, _ in ents]))))
+            out.append(Claim('nothing registered or removed; next_id not lowered', z3.And(nid2 >= nid, tm.count() == z3.Sum([z3.If(u, 1, 0) for u, _ in ents]))))
             out.append(Claim('no actor started', not any(e[0] == 'spawn' for e in res['log'])))
             out.append(Cover('already exists'))
         return out
